@@ -21,7 +21,7 @@ def _through_text(node):
     return node
 
 
-def hop(fmt, ir, style="rest", emit_default_doc=False, type_annotations=True, kwonly=False):
+def hop(fmt, ir, style="rest", emit_default_doc=False, type_annotations=True, kwonly=False, keep_prose=False):
     """one emit -> (text in replay) -> parse hop; exceptions propagate"""
     import cdd.docstring.utils.parse_utils as pu
 
@@ -58,7 +58,13 @@ def hop(fmt, ir, style="rest", emit_default_doc=False, type_annotations=True, kw
             import cdd.docstring.parse
 
             text = cdd.docstring.emit.docstring(ir, docstring_format=style, word_wrap=False, emit_default_doc=True, emit_types=True)
-            return cdd.docstring.parse.docstring(text, emit_default_doc=False)
+            return cdd.docstring.parse.docstring(text, emit_default_doc=not not keep_prose)  # keep_prose: the parser's own default (the 'Defaults to' prose stays in the description)
+        if fmt == "docstring_notypes":  # the docstring emitter's default: types are NOT written; the parser infers them from the defaults
+            import cdd.docstring.emit
+            import cdd.docstring.parse
+
+            text = cdd.docstring.emit.docstring(ir, docstring_format=style, word_wrap=False, emit_default_doc=True, emit_types=False)
+            return cdd.docstring.parse.docstring(text, emit_default_doc=not not keep_prose)
         if fmt == "json_schema":
             import cdd.json_schema.emit
             import cdd.json_schema.parse
@@ -80,6 +86,7 @@ FORMAT_FUNCS = {
     "argparse": ["cdd.argparse_function.emit.argparse_function", "cdd.argparse_function.parse.argparse_ast",
                  "cdd.shared.ast_utils.param2argparse_param", "cdd.argparse_function.utils.emit_utils.parse_out_param"],
     "docstring": ["cdd.docstring.emit.docstring", "cdd.docstring.parse.docstring"],
+    "docstring_notypes": ["cdd.docstring.emit.docstring", "cdd.docstring.parse.docstring", "cdd.shared.docstring_parsers._infer_default"],
     "json_schema": ["cdd.json_schema.emit.json_schema", "cdd.json_schema.parse.json_schema", "cdd.json_schema.utils.emit_utils.param2json_schema_property",
                     "cdd.json_schema.utils.parse_utils.json_schema_property_to_param"],
 }
